@@ -170,7 +170,7 @@ def run_histories(report, rng):
         return new
 
     for i in range(n):
-        profile = rng.choice(['general', 'routines', 'loops', 'print', 'matrix', 'nested', 'nested'])
+        profile = rng.choice(['general', 'routines', 'loops', 'print', 'matrix', 'nested', 'nested', 'tod', 'tod'])
         rec = gen_lang.make_record(0, lang_props.hash_seed(report.seed, 'c17' + profile, i), profile, 20)
         world = runner.World(rec['pop'])
         job = ScriptJob()
